@@ -121,18 +121,19 @@ func (a *application) stop(force bool, timeout time.Duration) error {
 	// update mode to prevent triggering 'permantent' mode
 	a.mode = gen.ApplicationModeTemporary
 
+	// set the reason first. killing the last member terminates the application
+	if force {
+		a.reason = gen.TerminateReasonKill
+	} else {
+		a.reason = gen.TerminateReasonShutdown
+	}
+
 	for _, pid := range a.members() {
 		if force {
 			a.node.Kill(pid)
 		} else {
 			a.node.SendExit(pid, gen.TerminateReasonShutdown)
 		}
-	}
-
-	if force {
-		a.reason = gen.TerminateReasonKill
-	} else {
-		a.reason = gen.TerminateReasonShutdown
 	}
 
 	select {
